@@ -287,22 +287,14 @@ example : matching [⟨1, 0, [[1]]⟩, ⟨2, 0, [[]]⟩, ⟨3, 0, [[2]]⟩] [1, 
 
 /-! ### settings.ConfigManager / pin.Manager -/
 
-inductive COp (γ : Type) where
-  | update (v : γ)     -- a successful UpdateSettings / Update: row and in-memory copy both `v`
-
-def cstep {γ : Type} (_s : Conf γ) : COp γ → Conf γ
-  | .update v => { row := some v, mem := v }
-
-def reachConf {γ : Type} (dflt : γ) (ops : List (COp γ)) : Conf γ := ops.foldl cstep { row := none, mem := dflt }
-
-/-- **restart_observe (settings, pinned settings).**  The in-memory copy equals
-what the constructor reads back (the stored row, or the initial settings when
-there is none). -/
-theorem restart_observe_conf {γ : Type} (dflt : γ) (ops : List (COp γ)) :
-    (restartConf dflt (reachConf dflt ops)).mem = (reachConf dflt ops).mem := by
+/-- **restart_observe (settings, pinned settings).**  The settings VALUE served
+from memory equals what the constructor reads back (the stored row, or the
+initial settings when there is none). -/
+theorem restart_observe_conf {γ : Type} (dflt : γ × Nat) (ops : List (COp γ)) :
+    (restartConf dflt (reachConf dflt ops)).mem.1 = (reachConf dflt ops).mem.1 := by
   unfold reachConf
-  suffices ∀ s : Conf γ, (restartConf dflt s).mem = s.mem →
-      (restartConf dflt (ops.foldl cstep s)).mem = (ops.foldl cstep s).mem from this _ rfl
+  suffices ∀ s : Conf γ, (restartConf dflt s).mem.1 = s.mem.1 →
+      (restartConf dflt (ops.foldl cstep s)).mem.1 = (ops.foldl cstep s).mem.1 from this _ rfl
   induction ops with
   | nil => intro s h; exact h
   | cons op rest ih =>
@@ -310,7 +302,21 @@ theorem restart_observe_conf {γ : Type} (dflt : γ) (ops : List (COp γ)) :
     apply ih
     cases op; simp [cstep, restartConf]
 
-example : (restartConf 0 (reachConf 0 [.update 4, .update 9])).mem = 9 := by decide
+example : (restartConf (0, 0) (reachConf (0, 0) [.update 4 0, .update 9 0])).mem.1 = 9 := by decide
+
+/-- … but NOT the revision number: the store counts updates, the manager keeps
+whatever revision the caller's struct carried (the API handler passes the value
+loaded at start-up).  Two updates: memory says 0, a restart says 1. -/
+theorem settings_revision_not_restart_stable :
+    ∃ ops : List (COp Nat), (restartConf (0, 0) (reachConf (0, 0) ops)).mem.2 ≠ (reachConf (0, 0) ops).mem.2 :=
+  ⟨[.update 4 0, .update 9 0], by decide⟩
+
+/-- a manager that took the stored revision back after each update would be restart-stable in the revision too -/
+theorem settings_revision_stable_if_reloaded {γ : Type} (dflt : γ × Nat) (s : Conf γ) (v : γ) (r : Nat) :
+    let s' := cstep s (.update v r)
+    let reloaded : Conf γ := restartConf dflt s'       -- `m.settings = store.Settings()` after the update
+    (restartConf dflt reloaded).mem = reloaded.mem := by
+  simp [cstep, restartConf]
 
 /-! ### open_is_readonly -/
 
@@ -321,12 +327,21 @@ theorem open_is_readonly :
     (∀ s : Roots, (restartRoots s).rows = s.rows) ∧
     (∀ s : Accts, (restartAccts s).bal = s.bal) ∧
     (∀ b (s : Hooks), (restartHooks b s).table = s.table) ∧
-    (∀ (γ : Type) (d : γ) (s : Conf γ), (restartConf d s).row = s.row) ∧
+    (∀ (γ : Type) (d : γ × Nat) (s : Conf γ), (restartConf d s).row = s.row) ∧
     (∀ (α β : Type) (view : α → β) (s : St α β), persisted (restart view s) = persisted s) ∧
     codeCtors.all ctorReadOnly = true := by
   refine ⟨fun _ => rfl, fun _ => rfl, fun _ _ => rfl, ?_, fun _ _ _ _ => rfl, by decide⟩
   intro γ d s
   cases h : s.row <;> simp [restartConf, h]
+
+/-- **restart_observe**, all engine-state abstractions together (webhooks: for a constructor that loads). -/
+theorem restart_observe :
+    (∀ ops, observeRoots (restartRoots (reachRoots ops)) = observeRoots (reachRoots ops)) ∧
+    (∀ s a, quiescentAccts s → observeAcct (restartAccts s) a = observeAcct s a) ∧
+    (∀ c : Ctor, c.loads = true → ∀ ops, observeHooks (restartHooks c.loads (reachHooks ops)) = observeHooks (reachHooks ops)) ∧
+    (∀ (γ : Type) (d : γ × Nat) ops, (restartConf d (reachConf d ops)).mem.1 = (reachConf d ops).mem.1) :=
+  ⟨restart_observe_roots, fun s a hq => restart_observe_accounts s hq a, restart_observe_hooks,
+   fun _ d ops => restart_observe_conf d ops⟩
 
 /-- every constructor of the table except `webhooks.NewManager` rebuilds its in-memory state -/
 theorem ctors_load_except_webhooks :
